@@ -70,12 +70,59 @@ pub fn configs18() -> Vec<Cfg18> {
             }
         }
     }
+    // channel-heterogeneous inputs: every assignment of 8 per-channel traits (noise, noise with 4 / 1 wasted bits, non-zero
+    // constant, silence, exact ramp, shared noise ± 4000 (constant non-zero difference), shared noise (dual mono)) to the
+    // channels, so that situations in which the tasks of one frame see DIFFERENT kinds of data meet every schedule
+    for (mid_side, fast) in [(true, false), (false, false), (false, true), (true, true)] {
+        for code in 0..64u32 {
+            v.push(Cfg18 { name: format!("sweep-hetero-ch2-{}{}-t{}{}", if mid_side { "ms" } else { "noms" }, if fast { "-fast" } else { "" }, code % 8, code / 8), stream_api: false, ch: 2, bps: 16, lpc: Some(2), mid_side, fast, signal: HETERO + code, frames: 16, block: 16, window: 0 });
+        }
+    }
+    for code in 0..512u32 {
+        // 3 channels: traits 0..3 only (noise, 4 wasted bits, constant, silence) — 64 assignments
+        if (0..3).any(|c| (code >> (3 * c)) & 7 > 3) {
+            continue;
+        }
+        v.push(Cfg18 { name: format!("sweep-hetero-ch3-t{}{}{}", code & 7, (code >> 3) & 7, (code >> 6) & 7), stream_api: false, ch: 3, bps: 16, lpc: Some(2), mid_side: true, fast: false, signal: HETERO + code, frames: 16, block: 16, window: 0 });
+    }
+    // the constant-difference and dual-mono pairs again on two frames of a larger block (state carried between frames)
+    for code in [5 + 8 * 5, 6 + 8 * 6, 1, 8, 1 + 8 * 7, 5 + 8 * 6u32] {
+        v.push(Cfg18 { name: format!("sweep-hetero64-ch2-ms-t{}{}", code % 8, code / 8), stream_api: false, ch: 2, bps: 16, lpc: Some(2), mid_side: true, fast: false, signal: HETERO + code, frames: 128, block: 64, window: 0 });
+    }
     v
 }
 
+pub const HETERO: u32 = 1_000_000;
 pub const SWEEP_SIGNALS: usize = 120;
 
 pub fn pcm18(c: &Cfg18) -> Vec<i32> {
+    if c.signal >= HETERO {
+        let code = c.signal - HETERO;
+        let noise = |seed: u64, i: usize| -> i64 {
+            let mut z = (seed.wrapping_add(i as u64)).wrapping_mul(0x9E3779B97F4A7C15);
+            z ^= z >> 29;
+            z = z.wrapping_mul(0xBF58476D1CE4E5B9);
+            z ^= z >> 32;
+            (z % 2001) as i64 - 1000
+        };
+        return (0..c.frames * c.ch as usize)
+            .map(|k| {
+                let (i, ch) = (k / c.ch as usize, k % c.ch as usize);
+                let own = noise(0x1000 * (ch as u64 + 1), i);
+                let shared = noise(0x77, i);
+                (match (code >> (3 * ch)) & 7 {
+                    0 => own,
+                    1 => own << 4,
+                    2 => 1000,
+                    3 => 0,
+                    4 => i as i64 * 7 - 50,
+                    5 => shared + if ch == 0 { 4000 } else { -4000 },
+                    6 => shared,
+                    _ => own << 1,
+                }) as i32
+            })
+            .collect();
+    }
     if c.signal >= 2 {
         // deterministic family: ramp slope × triangle × bounded LCG walk at 4 amplitude classes
         let s = c.signal as u64;
